@@ -31,6 +31,7 @@ structure Out where
   res : Res := .done none false
   trace : List (Bool × Inj) := []   -- per attempted write: configuration?, injection
   reqs : List DevReq := []
+  storeFail : Bool := false         -- the side-map transaction of an attempted configuration write failed
 deriving Repr
 
 /-! ## Northbound stand-ins -/
@@ -62,32 +63,38 @@ def touchTx (s : Sys) (i : Nat) : Sys :=
   | some t => setTx s i { t with ver := t.ver + 1 }
   | none => s
 
+/-- the side-map transaction of a configuration write succeeds (two operations on one key make it
+    fail, which `UpdateStatus` reports as a conflict that the reconciler swallows) -/
+def storeOK (s : Sys) (a : Act) (last : Option Str) : Bool :=
+  !a.isCfg || (storeSide s.side (actValues (view s) a).2 last).isSome
+
 /-- apply the planned writes in order under the injection.  Every act was planned on the records
     read at the start of the invocation; an act is applied to the current state, which differs from
     the planning state only by this invocation's own earlier writes to the *other* record (and by
-    the injected interference, after which the CAS of the interfered record conflicts). -/
-def runActs (s : Sys) (i : Nat) (last : Option Str) : List Act → List Inj → Sys × Bool × List (Bool × Inj)
-  | [], _ => (s, false, [])
+    the injected interference, after which the CAS of the interfered record conflicts).
+    The last component tells whether a side-map transaction failed. -/
+def runActs (s : Sys) (i : Nat) (last : Option Str) : List Act → List Inj → Sys × Bool × List (Bool × Inj) × Bool
+  | [], _ => (s, false, [], false)
   | a :: rest, inj =>
     let j := inj.headD .ok
     let tr := (a.isCfg, j)
-    let cont (s' : Sys) :=
-      let (s'', e, t) := runActs s' i last rest inj.tail
-      (s'', e, tr :: t)
+    let cont (s' : Sys) (sf : Bool) :=
+      let (s'', e, t, sf') := runActs s' i last rest inj.tail
+      (s'', e, tr :: t, sf || sf')
     match j with
-    | .ok => cont (applyAct s a last)
-    | .fail => (s, true, [tr])
+    | .ok => cont (applyAct s a last) (!storeOK s a last)
+    | .fail => (s, true, [tr], false)
     | .conflict =>
-      if a.isCfg then cont (sideWrite (touchCfg s) (actValues (view s) a).2 last)
-      else cont (touchTx s i)
+      if a.isCfg then cont (sideWrite (touchCfg s) (actValues (view s) a).2 last) false
+      else cont (touchTx s i) false
     | .sideOnly =>
-      if a.isCfg then (sideWrite s (actValues (view s) a).2 last, true, [tr])
-      else cont (applyAct s a last)
+      if a.isCfg then (sideWrite s (actValues (view s) a).2 last, true, [tr], false)
+      else cont (applyAct s a last) false
     | .race =>
-      if a.isCfg then cont (applyAct s a last)
+      if a.isCfg then cont (applyAct s a last) (!storeOK s a last)
       else
         let (s', landed) := nbRollback s i
-        if landed then cont s' else cont (applyAct s a last)
+        if landed then cont s' false else cont (applyAct s a last) false
 
 /-- the raw answer names the harness uses for the device (gRPC code names) -/
 def ansOfName (n : Str) : Option DevAns :=
@@ -130,13 +137,13 @@ def stepTx (s : Sys) (i : Nat) (verdict : Verdict) (ansName : Str) (inj : List I
     let (s1, reqs) := match plan.send with
       | some values => devSet s values s.cfg.aTerm ansName
       | none => (s, [])
-    let (s2, failed, trace) := runActs s1 i last plan.acts inj
+    let (s2, failed, trace, sf) := runActs s1 i last plan.acts inj
     let res :=
       if failed then
         (if plan.failNil && trace.length = 1 && trace.all (·.1) then Res.done none false else Res.done none true)
       else if plan.err then Res.done none true
       else Res.done plan.requeue false
-    (s2, { res := res, trace := trace, reqs := reqs })
+    (s2, { res := res, trace := trace, reqs := reqs, storeFail := sf })
 
 /-! ## The configuration reconciler -/
 
